@@ -44,7 +44,8 @@ def make_cer(rc=None, fc=None, hints=None, packages=None):
         hints=dict(hints or {}),
         format_constraints={k: I.EvaluatedFormatConstraint(format_constraint_fulfilled=v[0], error_message=v[1]) for k, v in (fc or {}).items()},
         requirement_constraints={k: I.STATE[v] for k, v in (rc or {}).items()},
-        packages=dict(packages) if packages is not None else None,
+        # "no packages" is written as None or as {} (Optional field), alternating with the number of requirement keys
+        packages=(dict(packages) if packages else ({} if len(rc or {}) % 2 else None)),
     )
 
 
